@@ -26,15 +26,20 @@ INFO = {
 MANDATORY = {'reg_v2': ['one-command-per-call', 'success-iff-200'], 'response': ['response-roundtrip']}
 
 CP_SCHEMA = None
+CLOCK_LOG = []          # (function that read the clock, reading, virtual instant) of the current path
 
 
 def _jitter_clock(eng, loop, jitter=2):
     """every reading: fresh variable, >= previous reading, within [now_ms, now_ms + jitter]"""
     st = {'last': None}
+    CLOCK_LOG.clear()
 
     def ts():
+        import sys
         base = loop.now_ms(eng)
         r = eng.int('clock', 0, 2 ** 50)
+        who = sys._getframe(2).f_code.co_name
+        CLOCK_LOG.append((who, r, loop._now.n))
         eng.assume(And(r >= base + 1000000, r <= base + 1000000 + jitter), check=False)
         if st['last'] is not None:
             # (satisfiable: the previous reading was <= its own base + jitter <= this base + jitter)
@@ -258,12 +263,29 @@ def scenario(eng, case, front):
             eng.check(cmd['digest_ok'], 'parameters-digest-valid')
         else:
             eng.check(cmd['n_comps'] == 9, 'legacy-command-format', {'components': cmd['n_comps']})
+    # for the known-finding classification: was the freshness guard of each command evaluated in the same loop
+    # instant as its signing (then only a clock tick BETWEEN the two reads can defeat it - the recorded finding), or
+    # were they separated by an await (then the guard does not protect the command at all - a different defect)?
+    guard_adjacent = []
+    last_guard = None
+    for who, r, now in CLOCK_LOG:
+        if who in ('register', 'unregister'):
+            last_guard = now
+        elif who == 'write_signature_info':
+            if last_guard is None:
+                guard_adjacent.append(None)
+            else:
+                same = (last_guard == now) if isinstance(last_guard, int) and isinstance(now, int) else \
+                    bool(__import__('symex.core', fromlist=['SBool']).SBool(last_guard == now))
+                guard_adjacent.append(same)
+            last_guard = None
     for idx in range(1, len(cmds)):
         a, b = cmds[idx - 1], cmds[idx]
         if a is None or b is None or a.get('sig_time') is None or b.get('sig_time') is None:
             continue
+        adj = guard_adjacent[idx] if front == 'v2' and idx < len(guard_adjacent) else True
         eng.check(b['sig_time'] > a['sig_time'], 'timestamps-strictly-increase', None,
-                  sig='equal-or-decreasing-timestamps:%s' % front)
+                  sig='equal-or-decreasing-timestamps:%s%s' % (front, '' if adj else ':guard-separated-from-signing'))
     for i in range(K):
         res = results[i]
         idx = served.get(i)
@@ -412,6 +434,8 @@ def cases(tier, seed):
     for ops in (['register', 'register'], ['register', 'unregister'], ['unregister', 'unregister']):
         cs.append(('reg_v2', {'K': 2, 'ops': ops, 'kinds': [['ok', 'silence'], ['ok']] if quick else
                    [['ok', 'nack', 'silence'], ['ok', 'status']]}, {'weight': 60, 'split_depth': 4}))
+    cs.append(('reg_v2', {'K': 3, 'ops': ['register', 'unregister', 'register'], 'kinds': [['ok'], ['ok'], ['ok']]},
+               {'weight': 80, 'split_depth': 5}))
     cs.append(('reg_v1', {'K': 2, 'ops': ['register', 'register'], 'kinds': [['ok', 'silence'], ['ok']]},
                {'weight': 60, 'split_depth': 4}))
     if not quick:
